@@ -222,6 +222,8 @@ func TestC15Pool(t *testing.T) {
 			}
 			err = p.Run(fs.EndTime()+600_000, false)
 			p.Finish(nil)
+			// calls on closed sessions give their buffers back exactly once, too
+			pokeClosedOOB(s, []*kcp.UDPSession{p.Sess[0], p.Sess[1]}, 4)
 			pool = kcp.VerifPoolReport()
 			d = snmpSince(before)
 			if err != nil {
